@@ -60,6 +60,10 @@ def selectors(names, alphabet):
     if n:
         sels += [0, -1, n - 1, [0, n - 1], [n - 1, 0], [True] + [False] * (n - 1), [False] * n, [a0], [a1 + "::-1", a0]]
         sels += [np.array([i % 2 == 0 for i in range(n)])]
+        # a list mixing names and positions (object array): resolved element by element, in the order given
+        mixed = np.empty(3, dtype=object)
+        mixed[:] = [a0, n - 1, a1 + "::-1"]
+        sels += [mixed]
     return sels
 
 
